@@ -7,6 +7,7 @@ import (
 	"github.com/aperturerobotics/bifrost/peer"
 	"github.com/aperturerobotics/bifrost/protocol"
 	"github.com/aperturerobotics/controllerbus/directive"
+	"github.com/sirupsen/logrus"
 	rt "github.com/aperturerobotics/bifrost/zz_verifrt"
 )
 
@@ -41,7 +42,7 @@ func c34Stream() (link.HandleMountedStream, string, peer.ID, peer.ID) {
 func VerifC34Relay() {
 	cfgPid := rt.String("cfgProtocol", 0, 2)
 	src := c34Peer("cfgSource")
-	c := &Controller{conf: &Config{ProtocolId: cfgPid}, srcPeerID: src}
+	c := &Controller{le: logrus.NewEntry(logrus.New()), conf: &Config{ProtocolId: cfgPid}, srcPeerID: src}
 	d, pid, local, _ := c34Stream()
 	res, err := c.HandleDirective(context.Background(), c34DI{d: d})
 	rt.Assert("no error", err == nil)
